@@ -168,6 +168,13 @@ def oracle(spec, o):
             for name in ("default", "strict"):
                 if o[name] != want:
                     return f"{name}_classifier: status {z} must map to {want} regardless of the type name, got {o[name]}"
+    if st is not None and st["t"] == "int":
+        # http_classifier looks at the status first (before marker types): the documented HTTP table, everything else UNKNOWN
+        z = int(st["v"])
+        want = {401: "AUTH", 403: "PERMISSION", 400: "PERMANENT", 404: "PERMANENT", 409: "CONCURRENCY", 408: "TRANSIENT",
+                429: "RATE_LIMIT"}.get(z, "SERVER_ERROR" if 500 <= z < 600 else "UNKNOWN")
+        if o["http"] != want:
+            return f"http_classifier: status {z} must map to {want}, got {o['http']}"
     for n, v in o["optional"].items():
         if v != o["default"]:
             return f"{n}_classifier (library absent) returned {v}, default_classifier returned {o['default']}"
@@ -206,6 +213,10 @@ def run(chk):
     )
     if errors:
         chk.violation({"kind": "correspondence-error", "what": "cases file did not evaluate", "errors": errors[:3]}, no_input=True)
+    tie = None
+    if ok:
+        import source_tie
+        tie = source_tie.classify_tie(chk)
     if bad:
         s, o, m = min(bad, key=lambda x: len(str(x[0])))
         chk.violation({"kind": "oracle", "what": m, "spec": s, "observed": o, "driver": "classify_driver", "also_failing": len(bad)})
@@ -214,6 +225,9 @@ def run(chk):
         chk.violation({"kind": "correspondence", "what": "Classify.ccase_ok: a classifier's answer differs from the Coq model, so the "
                        "theorems of Props/C19.v no longer describe this code; the oracle (totality, optional = default) found no violated clause",
                        "spec": specs[i], "observed": obs[i], "driver": "classify_driver", "disagreements": len(failing)}, no_input=True)
+
+    if tie is not None:
+        source_tie.report(chk, tie, "classify", f"{len(specs)} generated exception objects incl. every int in -50..700: no property violation found")
 
 
 def replay(path):
